@@ -269,17 +269,26 @@ def run_real(spec):
             noise.__enter__()  # line-level schedule noise inside the real worker (import-bootstrapped and "<string>" workers)
             res.count("real_runs_with_worker_side_noise")
         try:
+            # where the model comes from: the spec key, the group's default for workers, or the group-wide default
+            source = ("spec", "group_remote_default", "group_default")[run % 3]
+            key = "//execmodel=main_thread_only" if source == "spec" else ""
+            if source == "group_remote_default":
+                group.set_execmodel("thread", "main_thread_only")
+            elif source == "group_default":
+                group.terminate(1)
+                group = execnet.Group(execmodel="main_thread_only")
+            res.count("model_from_" + source)
             if spec["spec"] == "popen":
-                gw = group.makegateway("popen//execmodel=main_thread_only")
+                gw = group.makegateway("popen" + key)
             elif spec["spec"] == "python":
-                gw = group.makegateway(f"popen//python={sys.executable}//execmodel=main_thread_only")
+                gw = group.makegateway(f"popen//python={sys.executable}" + key)
             else:
-                group.makegateway("popen//id=m")
-                gw = group.makegateway("popen//via=m//execmodel=main_thread_only")
+                group.makegateway("popen//id=m//execmodel=thread")
+                gw = group.makegateway("popen//via=m" + key)
             # several histories on the same worker: the state carried from one to the next is the point
             for h in range(3):
                 steps = gen_history(rng)
-                label = f"real {spec['spec']} history={steps}"
+                label = f"real {spec['spec']} (model from {source}) history={steps}"
                 run_history(res, gw, steps, label, run * 10 + h + 1)
                 res.case(core.h64("real", spec["spec"], repr(steps), run, h))
             st = gw.remote_status()
